@@ -230,8 +230,18 @@ BuildChainDrift(p) ==
              stageBad == {i \in 2..Len(p.builds) :
                             /\ p.builds[i][1] \in {"Radix2", "Radix3", "Radix4", "Radix5", "Radix6", "Radix7", "Radix8", "Radix9", "Radix11", "Radix12", "Radix16"}
                             /\ p.builds[i][3] # AvxRadixScr(p.builds[i][2], p.builds[i - 1][3])}
+             \* a Rader / Bluestein base advertises what Scratch.tla derives from the inner transform built just before it
+             \* (RadersAvx2 with AVX2, the portable Rader's algorithm without)
+             Inner(i) == [len |-> p.builds[i - 1][2], scr |-> p.builds[i - 1][3]]
+             baseBad == {i \in 2..Len(p.builds) :
+                            \/ /\ p.builds[i][1] = "RadersBase" /\ p.builds[i - 1][2] = p.builds[i][2] - 1
+                               /\ p.builds[i][3] # (IF HasBit(cfg.mask, BitAvx2) THEN AvxRadersScr(Inner(i))
+                                                    ELSE Scr("RadersAlgorithm", p.builds[i][2], <<Inner(i)>>))
+                            \/ /\ p.builds[i][1] = "BluesteinsBase" /\ p.builds[i - 1][2] >= 2 * p.builds[i][2] - 1
+                               /\ p.builds[i][3] # AvxBluesteinsScr(Inner(i))}
          IN DriftIf(exp # obs, <<"avx-chain", pl.elem, p.n, p.dir, exp, obs>>)
             + DriftIf(stageBad # {}, <<"avx-radix-scratch", p.n, stageBad>>)
+            + DriftIf(baseBad # {}, <<"avx-base-scratch", p.n, baseBad>>)
     ELSE 0
 
 \* C04 (+ C05 scratch clause): what plan_fft must return
